@@ -39,6 +39,7 @@ static void on_notify(DBusPendingCall* p, void* ud) {
 }
 static DBusHandlerResult on_filter(DBusConnection*, DBusMessage* m, void*) {
   int t = dbus_message_get_type(m);
+  if (getenv("VP_TRACE")) fprintf(stderr, "filter: type %d rs %u after '%s'\n", t, dbus_message_get_reply_serial(m), g_log.empty() ? "" : g_log.back().c_str());
   if (t == DBUS_MESSAGE_TYPE_METHOD_RETURN || t == DBUS_MESSAGE_TYPE_ERROR) g_filtered->push_back(dbus_message_get_reply_serial(m));
   return DBUS_HANDLER_RESULT_NOT_YET_HANDLED;
 }
@@ -86,7 +87,7 @@ extern "C" int LLVMFuzzerTestOneInput(const uint8_t* data, size_t size) {
   std::set<uint32_t> serials_seen;
   std::map<uint32_t, int> peer_knows;       // serial -> how many replies the peer already wrote for it
   std::vector<uint32_t> written_unpumped;   // reply serials written by the peer but not yet read by the connection
-  bool peer_open = true; bool nontrivial = false; uint32_t tok = 0;
+  bool peer_open = true; bool nontrivial = false; uint32_t tok = 0; uint32_t last_serial = 0;
   std::vector<uint32_t> expected_filtered;  // multiset of reply serials that must reach ordinary dispatch
   std::vector<uint32_t> optional_filtered;  // queued timeout errors of calls cancelled before the next dispatch: may or may not be seen as ordinary messages
 
@@ -122,7 +123,7 @@ extern "C" int LLVMFuzzerTestOneInput(const uint8_t* data, size_t size) {
 
   int nops = 3 + (int)pick(f, 26);
   for (int step = 0; step < nops; step++) {
-    int k = (int)pick(f, 14);
+    int k = (int)pick(f, 16);
     if (k <= 3 && calls.size() < 40) {
       if (!peer_open) continue;
       DBusMessage* m = dbus_message_new_method_call("com.vp.Peer", "/p", "com.vp.I", "Ask");
@@ -137,6 +138,7 @@ extern "C" int LLVMFuzzerTestOneInput(const uint8_t* data, size_t size) {
       x.due = timeout == INT_MAX ? -1 : t0 + (timeout == -1 ? 25000 : timeout);
       dbus_message_unref(m);
       if (x.serial == 0) fail("serial-zero", "a sent message was assigned serial 0");
+      last_serial = x.serial;
       if (!serials_seen.insert(x.serial).second) fail("serial-reused", "serial " + std::to_string(x.serial) + " assigned twice");
       calls.push_back(x);
       size_t idx = calls.size() - 1;
@@ -219,13 +221,65 @@ extern "C" int LLVMFuzzerTestOneInput(const uint8_t* data, size_t size) {
       if (local) { const char* en = dbus_message_get_error_name(r); if (t != DBUS_MESSAGE_TYPE_ERROR || !en || (strcmp(en, DBUS_ERROR_NO_REPLY) && strcmp(en, DBUS_ERROR_DISCONNECTED) && strcmp(en, DBUS_ERROR_TIMEOUT))) fail("local-error-wrong", std::string("call that timed out / lost its connection completed with ") + (en ? en : "a non-error")); }
       else { const char* snd = dbus_message_get_sender(r); if (!snd || strcmp(snd, ":1.9")) fail("reply-not-from-peer", "call completed by a reply that the peer did not write"); }
       dbus_message_unref(r);
+    } else if (k >= 14) {
+      // dbus_connection_send_with_reply_and_block: the peer cannot answer while the only thread is blocked, so its answer
+      // (if any) is written beforehand for the serial the call is going to get (serials are handed out sequentially)
+      if (!peer_open) continue;
+      uint32_t predicted = last_serial + 1;
+      int mode = (int)pick(f, 4);   // 0 return waiting, 1 error waiting, 2 nothing, 3 only a reply for some other serial
+      int timeout = mode <= 1 ? (rare(f, 2) ? INT_MAX : rare(f, 2) ? -1 : 1000) : rare(f, 4) ? -1 : 1 + (int)pick(f, 60000);
+      long eff = timeout == -1 ? 25000 : timeout;
+      std::string token = "sb" + std::to_string(++tok);
+      bool dup = false;
+      if (mode <= 1 || mode == 3) {
+        Msg m; m.type = mode == 1 ? T_ERROR : T_RETURN; if (m.type == T_ERROR) m.set_str(F_ERROR_NAME, 's', "com.vp.Failed");
+        m.set_u32(F_REPLY_SERIAL, mode == 3 ? 90000 + (uint32_t)pick(f, 5) : predicted); m.serial = 5000 + tok; m.set_str(F_SENDER, 's', ":1.9");
+        m.body.push_back(Value::str('s', token)); m.fix_signature();
+        peer.write_bytes(encode_msg(m));
+        if (mode == 3) written_unpumped.push_back(m.fu32(F_REPLY_SERIAL));
+        else if (rare(f, 4)) { dup = true; m.serial = 7000 + tok; peer.write_bytes(encode_msg(m)); }
+      }
+      g_log.push_back(std::string("send_with_reply_and_block, timeout ") + (timeout == INT_MAX ? "never" : std::to_string(eff) + "ms") + "; waiting at the peer: " + (mode == 0 ? "return" : mode == 1 ? "error" : mode == 2 ? "nothing" : "a reply for another serial") + (dup ? " (twice)" : ""));
+      if (outstanding() >= 1) nontrivial = true;
+      DBusMessage* m = dbus_message_new_method_call("com.vp.Peer", "/p", "com.vp.I", "AskSync");
+      if (!m) continue;
+      DBusError e; dbus_error_init(&e);
+      long t0 = vnow();
+      watchdog_start(); g_block_start = real_s();
+      DBusMessage* r = dbus_connection_send_with_reply_and_block(c, m, timeout, &e);
+      g_block_start = 0;
+      long waited = vnow() - t0;
+      uint32_t got = dbus_message_get_serial(m);
+      dbus_message_unref(m);
+      if (got != predicted) { if (r) dbus_message_unref(r); dbus_error_free(&e); stats_class("harness:serial-misprediction"); break; }   // harness assumption, not part of the property
+      last_serial = got;
+      if (!serials_seen.insert(got).second) fail("serial-reused", "serial " + std::to_string(got) + " assigned twice");
+      if (dup) written_unpumped.push_back(predicted);   // the second copy pairs with nothing
+      if (mode == 0) {
+        if (!r) fail("sync-call-lost-reply", std::string("a method return was waiting but the blocking call failed with ") + (e.name ? e.name : "no error"));
+        const char* got_tok = nullptr;
+        if (dbus_message_get_type(r) != DBUS_MESSAGE_TYPE_METHOD_RETURN || dbus_message_get_reply_serial(r) != got || !dbus_message_get_args(r, nullptr, DBUS_TYPE_STRING, &got_tok, DBUS_TYPE_INVALID) || token != got_tok)
+          fail("sync-call-wrong-reply", "the blocking call returned a message that is not the reply written for it (reply serial " + std::to_string(dbus_message_get_reply_serial(r)) + ", expected " + std::to_string(got) + ")");
+      } else if (mode == 1) {
+        if (r || !dbus_error_has_name(&e, "com.vp.Failed")) fail("sync-call-wrong-reply", std::string("an error reply com.vp.Failed was waiting but the blocking call ") + (r ? "returned a message" : std::string("failed with ") + (e.name ? e.name : "nothing")));
+      } else {
+        if (r) fail("sync-call-wrong-reply", "nothing was written for this call but it returned a message with reply serial " + std::to_string(dbus_message_get_reply_serial(r)));
+        if (!dbus_error_has_name(&e, DBUS_ERROR_NO_REPLY) && !dbus_error_has_name(&e, DBUS_ERROR_TIMEOUT)) fail("local-error-wrong", std::string("unanswered blocking call failed with ") + (e.name ? e.name : "nothing"));
+        if (waited < eff) fail("sync-call-early-timeout", "unanswered blocking call with a timeout of " + std::to_string(eff) + " ms gave up after " + std::to_string(waited) + " ms");
+      }
+      if (r) dbus_message_unref(r);
+      dbus_error_free(&e);
+      peer.read_frames();   // the peer reads the call: closing a socket with unread data would reset the connection and legitimately lose what the other side has not read yet
+      model_pump(); settle();
     } else {
       if (!peer_open) continue;
       g_log.push_back("peer closes its socket (" + std::to_string(outstanding()) + " calls outstanding)");
       if (outstanding() >= 1) nontrivial = true;
+      peer.read_frames();   // orderly close: nothing unread on the peer's side (else the kernel signals a reset and unread replies may be dropped)
       peer.close_peer(); peer_open = false;
       pump_connection(c); model_pump(); settle();
     }
+    if (getenv("VP_TRACE")) { fprintf(stderr, "step %d: %s | filtered=%zu unpumped=%zu inbuf-eof=%d\n", step, g_log.empty() ? "" : g_log.back().c_str(), filtered.size(), written_unpumped.size(), (int)peer.eof); for (size_t i = 0; i < calls.size(); i++) fprintf(stderr, "   call %zu serial %u completed=%d model-done=%d cancelled=%d notified=%d\n", i, calls[i].serial, (int)dbus_pending_call_get_completed(calls[i].p), (int)calls[i].done, (int)calls[i].cancelled, calls[i].notified); }
     check_all(g_log.empty() ? "" : g_log.back().c_str());
   }
   // end: let everything finite time out, then every non-cancelled call with a finite timeout (or a dead peer) is completed exactly once
